@@ -52,8 +52,12 @@ class Pool:
 
     def close(self):
         if self._pool is not None:
-            self._pool.terminate()
-            self._pool.join()
+            try:
+                self._pool.shutdown(wait=False, cancel_futures=True)
+                for p in list(getattr(self._pool, "_processes", {}).values()):
+                    p.terminate()
+            except Exception:
+                pass
             self._pool = None
 
     def map(self, mod, fn, payloads, deadline=None):
@@ -66,20 +70,27 @@ class Pool:
                 if deadline and time.time() > deadline:
                     break
         else:
+            import concurrent.futures as cf
+            from concurrent.futures.process import BrokenProcessPool
             if self._pool is None:
                 from mc import env
-                ctx = mp.get_context("spawn")
-                self._pool = ctx.Pool(self.workers, initializer=_init, initargs=(env.VERIF, self.mode))
-            res = [self._pool.apply_async(_call, (it,)) for it in items]
+                # ProcessPoolExecutor: a worker that dies (killed, segfault in compiled code) breaks the pool loudly
+                # instead of leaving its task pending for ever
+                self._pool = cf.ProcessPoolExecutor(self.workers, mp_context=mp.get_context("spawn"),
+                                                    initializer=_init, initargs=(env.VERIF, self.mode))
+            res = [self._pool.submit(_call, it) for it in items]
             for r in res:
                 while True:
                     try:
-                        out.append(r.get(timeout=5))
+                        out.append(r.result(timeout=5))
                         break
-                    except mp.TimeoutError:
+                    except cf.TimeoutError:
                         if deadline and time.time() > deadline + 120:
                             self.close()
                             raise HarnessError("worker exceeded the wall-clock guard")
+                    except BrokenProcessPool as e:
+                        self.close()
+                        raise HarnessError("a worker process died (%s)" % (e,))
         vals = []
         for st, v in out:
             if st != "ok":
